@@ -26,9 +26,17 @@ Optional keys (how the SAME batch is handed to the library; absent = the plain f
   "cost_type": "float"|"int"|"numpy", "tok_dtype": [ref dtype, hyp dtype],
   "layout": [ref layout, hyp layout] from "contig"|"tview"|"strided"|"expand",
   "alias": bool (hyp IS the ref tensor), "default_dtype": "float64"|None.
-None of these may change a single reported number; the model never sees them.
+  "life" (module entry only): {"init": {attribute: value the module is CONSTRUCTED with; it is reassigned
+  to the case's value before the observed call}, "warm": "none"|"same"|"other" (a call between construction
+  and reassignment, on this batch / on one of another shape), "post": bool (one more call afterwards, another
+  shape), "hand": "deepcopy"|"copy"|"pickle" (the observed call is made on such a copy of the re-tuned object),
+  "train": bool (train() / eval() before the call)}. Judged as a fresh module with the case's values.
+None of these may change a single reported number; the model never sees them (the Lean driver replays
+"life" on its record model of the module and checks that the re-tuned record is the fresh one).
 """
+import copy
 import itertools
+import pickle
 import warnings
 from fractions import Fraction
 
@@ -207,12 +215,103 @@ class _DefaultDtype:
         torch.set_default_dtype(self.old)
 
 
+# ------------------------------------------------------------------ the life cycle of a module object
+# Every documented public attribute of EditDistance / PrefixEditDistances (= the constructor parameters, listed in
+# ORDER) may be REASSIGNED after construction; what the module computes afterwards is judged as a freshly
+# constructed module with the current values (case["life"], see `make_life`). Values are stored JSON-able
+# (costs as "n/d") and turned into the documented python types here.
+def life_init_values(case, values):
+    """The constructor values of a module with a life: the case's option cell except for the attributes that
+    are reassigned later (life["init"] holds what THEY are constructed with)."""
+    life = case.get("life")
+    v = dict(values)
+    if not life:
+        return v
+    for k, x in life["init"].items():
+        if k not in v:
+            continue
+        v[k] = float(Fraction(x)) if k.endswith("_cost") else x
+    return v
+
+
+def assigned_value(k, want):
+    """What is assigned to attribute k: the documented python type (float / int / None / bool)."""
+    if k.endswith("_cost"):
+        return float(want)
+    if k in ("eos", "padding"):
+        return None if want is None else int(want)
+    return bool(want)
+
+
+def attr_problems(mod, mode, values, how):
+    bad = []
+    rep = mod.extra_repr()
+    for k in ORDER[mode]:
+        got = getattr(mod, k, "<missing>")
+        want = values[k]
+        if k.endswith("_cost"):
+            ok = type(got) is float and got == float(want)
+        elif k in ("eos", "padding"):
+            ok = (got is None and want is None) or (type(got) is int and want is not None
+                                                    and got == int(want))
+        else:
+            ok = got is want or (type(got) is bool and type(want) is bool and got == want)
+        if not ok:
+            bad.append(f"{k}: attribute {got!r}, {how} {want!r}")
+        elif f"{k}={got}" not in rep.split(", "):
+            bad.append(f"{k}={got} not in extra_repr() {rep!r}")
+    return bad
+
+
+def other_batch(ref_cols, hyp_cols, R, H, filler):
+    """A small batch of ANOTHER shape made from the first columns of this one (N, R and H all differ):
+    (ref (N', R+1), hyp (N', H-1 | H+1)) as int64 tensors."""
+    import torch
+    as_t = lambda c, L: (c if torch.is_tensor(c) else torch.tensor(c, dtype=torch.int64).reshape(len(c), L))
+    r, h = as_t(ref_cols, R)[:3], as_t(hyp_cols, H)[:3]
+    N = len(ref_cols)
+    n = r.shape[0]
+    if n == 0:
+        r = torch.full((1, R), filler, dtype=torch.int64)
+        h = torch.full((1, H), filler, dtype=torch.int64)
+        n = 1
+    if n == N or N == 0:  # (the batch size must differ as well)
+        r, h = torch.cat([r, r[:1]], 0), torch.cat([h, h[:1]], 0)
+    r = torch.cat([r, r[:, :1] if R else torch.full((r.shape[0], 1), filler, dtype=torch.int64)], 1)
+    h = h[:, : H - 1] if H >= 2 else torch.cat([h, torch.full((h.shape[0], 1), filler, dtype=torch.int64)], 1)
+    return r.contiguous(), h.contiguous(), r.shape[1], h.shape[1]
+
+
+def module_vs_functional(mod, mode, values, case, ref_cols, hyp_cols, R, H):
+    """Call the module object on a batch and the functional with `values` (what the module's attributes are
+    at this moment) on the same tensors: None when bit-identical, else a description."""
+    import torch
+    import pydrobert.torch.functional as F
+    dts = case.get("tok_dtype") or ["int64", "int64"]
+    lay = case.get("layout") or ["contig", "contig"]
+    garbage = garbage_tokens(case)
+    bf = values["batch_first"]
+    ref, _ = make_tensor(ref_cols, R, bf, dts[0], lay[0], garbage)
+    hyp, _ = make_tensor(hyp_cols, H, bf, dts[1], lay[1], garbage)
+    got = mod(ref, hyp)
+    f = F.edit_distance if mode == "scalar" else F.prefix_edit_distances
+    want = f(ref, hyp, **{k: values[k] for k in ORDER[mode]})
+    if got.shape == want.shape and got.dtype == want.dtype and torch.equal(got, want):
+        return None
+    show = lambda t: t.tolist() if t.numel() <= 24 else f"<shape {list(t.shape)}>"
+    return (f"shapes ref {list(ref.shape)} hyp {list(hyp.shape)}: module {show(got)}, functional with the "
+            f"module's current attribute values {show(want)}")
+
+
 def call_impl(case, ref_cols, hyp_cols, R, H, light=False, tensor_out=False):
     """Run the real code on the given columns (lists of columns, or (N, L) int64 tensors); return the
     result in column-major canonical form: scalar -> [v_n], prefix -> [[v_{k,n} for k] for n] plus the
     raw shape. Unless `light`, also: the library warnings raised, whether the inputs were written to,
     module attributes, and (module entry) the result of a second call on the same object.
-    `tensor_out`: return (the tensor as returned by the library, the extra observations) instead."""
+    `tensor_out`: return (the tensor as returned by the library, the extra observations) instead.
+    Module entry with case["life"]: the module is constructed with OTHER values for some attributes
+    (optionally called once on the same / another batch), the attributes are then reassigned to the case's
+    option cell, and only then comes the call that is observed."""
     import torch
     import pydrobert.torch.functional as F
     import pydrobert.torch.modules as M
@@ -231,38 +330,63 @@ def call_impl(case, ref_cols, hyp_cols, R, H, light=False, tensor_out=False):
     mode = case["mode"]
     values = option_values(case)
     extra = {}
+    mod = None
+    life = case.get("life") if case["entry"] == "module" else None
+    if case["entry"] == "module":
+        # construction (+ the part of the object's life that lies before the observed call)
+        cls = M.EditDistance if mode == "scalar" else M.PrefixEditDistances
+        init = life_init_values(case, values)
+        pos, kw = split_args(init, ORDER[mode], DOC_DEFAULTS[mode], case.get("ctor", "positional"))
+        with _DefaultDtype(case.get("default_dtype")), warnings.catch_warnings():
+            warnings.simplefilter("ignore")
+            mod = cls(*pos, **kw)
+            if life:
+                if not light:
+                    extra["module_attrs"] = attr_problems(mod, mode, init, "constructed with")
+                    plain_init = {k: (assigned_value(k, init[k])) for k in ORDER[mode]}
+                    bad = None
+                    if life.get("warm") == "same":
+                        bad = module_vs_functional(mod, mode, plain_init, case, ref_cols, hyp_cols, R, H)
+                    elif life.get("warm") == "other":
+                        bad = module_vs_functional(mod, mode, plain_init, case,
+                                                   *other_batch(ref_cols, hyp_cols, R, H, garbage[0]))
+                    if bad:
+                        extra.setdefault("life_calls", []).append("call before the reassignment, " + bad)
+                for k in life["init"]:
+                    if k in values:
+                        setattr(mod, k, assigned_value(k, values[k]))
+                # the re-tuned object may reach the observed call as a copy of itself, and in either mode
+                hand = life.get("hand", "same")
+                if hand == "deepcopy":
+                    mod = copy.deepcopy(mod)
+                elif hand == "copy":
+                    mod = copy.copy(mod)
+                elif hand == "pickle":
+                    mod = pickle.loads(pickle.dumps(mod))
+                if life.get("train") is not None:
+                    mod.train(bool(life["train"]))
     with _DefaultDtype(case.get("default_dtype")), warnings.catch_warnings(record=True) as wlist:
         warnings.simplefilter("always")
         if case["entry"] == "module":
-            cls = M.EditDistance if mode == "scalar" else M.PrefixEditDistances
-            pos, kw = split_args(values, ORDER[mode], DOC_DEFAULTS[mode], case.get("ctor", "positional"))
-            mod = cls(*pos, **kw)
             out = mod(ref, hyp)
             if not light:
-                bad = []
-                rep = mod.extra_repr()
-                for k in ORDER[mode]:
-                    got = getattr(mod, k, "<missing>")
-                    want = values[k]
-                    if k.endswith("_cost"):
-                        ok = type(got) is float and got == float(want)
-                    elif k in ("eos", "padding"):
-                        ok = (got is None and want is None) or (type(got) is int and want is not None
-                                                                and got == int(want))
-                    else:
-                        ok = got is want
-                    if not ok:
-                        bad.append(f"{k}: attribute {got!r}, constructed with {want!r}")
-                    elif f"{k}={got}" not in rep.split(", "):
-                        bad.append(f"{k}={got} not in extra_repr() {rep!r}")
-                extra["module_attrs"] = bad
-                out2 = mod(ref, hyp)
+                extra["module_attrs"] = (extra.get("module_attrs") or []) + attr_problems(
+                    mod, mode, values, "assigned" if life else "constructed with")
+                out2 = mod.forward(ref, hyp)  # (the documented method itself, not through __call__)
                 extra["second_call_same"] = bool(out2.shape == out.shape and out2.dtype == out.dtype
                                                  and torch.equal(out2, out))
         else:
             f = F.edit_distance if mode == "scalar" else F.prefix_edit_distances
             pos, kw = split_args(values, ORDER[mode], DOC_DEFAULTS[mode], case.get("call", "positional"))
             out = f(ref, hyp, *pos, **kw)
+    if life and not light and life.get("post"):
+        # the same object once more, on a batch of another shape
+        with _DefaultDtype(case.get("default_dtype")), warnings.catch_warnings():
+            warnings.simplefilter("ignore")
+            plain = {k: assigned_value(k, values[k]) for k in ORDER[mode]}
+            bad = module_vs_functional(mod, mode, plain, case, *other_batch(ref_cols, hyp_cols, R, H, garbage[0]))
+            if bad:
+                extra.setdefault("life_calls", []).append("call after the observed one, " + bad)
     if not light:
         kinds = set()
         for w in wlist:
@@ -313,7 +437,7 @@ def expand_big(case):
     import torch
     g = case["gen"]
     N, R, H, eos = case["N"], case["R"], case["H"], case["eos"]
-    ck = (g["seed"], g["alphabet"], g["noise"], N, R, H, eos)
+    ck = (g["seed"], g["alphabet"], g["noise"], N, R, H, eos, bool(g.get("mix")))
     if ck in _BIG_CACHE:
         return _BIG_CACHE[ck]
     A = g["alphabet"]
@@ -336,6 +460,14 @@ def expand_big(case):
             edge = np.ones(N, dtype=bool)
             edge[4:max(4, N - 16)] = False
             ln = np.where(edge, rs.integers(max(1, (L + 1) // 2) if L else 0, L + 1, N, dtype=np.int64), ln)
+            if g.get("mix"):
+                # a small batch that MIXES empty / very short sequences with full-length ones (the padded size is
+                # then decided by another pair than the one being scored)
+                ln[0] = L
+                if N > 2:
+                    ln[1] = min(L, int(rs.integers(0, 3)))
+                if N > 3:
+                    ln[2] = int(rs.integers(0, L + 1))
             ln[N - 1] = L  # the very last pair fills the padded sizes (no eos at all)
             pos = np.arange(L, dtype=np.int64)[None, :]
             garb = rs.integers(0, A + 1, (N, L), dtype=np.int64)
@@ -417,7 +549,14 @@ class C01(PropertyCheck):
             "dtypes; transposed-view, strided-with-offset (inside a garbage-filled storage) and expanded (stride 0) "
             "tensors; hyp the same tensor object as ref; warn on/off; positional / keyword / defaults-omitted / mixed "
             "calls and constructors; python-int and numpy costs; padding from {-100,-1,0,1,7,-2^24,2^31+5, eos, a "
-            "token}; float64 default dtype. A column is non-trivial when both cut sequences are "
+            "token}; float64 default dtype. MODULE entry: in about half of the (non-plain) module cases the object has a "
+            "life before the observed call (`make_life`): constructed with another value for one attribute / the three "
+            "costs / all ten public attributes / a random subset, optionally called (same batch or another shape), "
+            "reassigned to the case's option cell, optionally handed on as copy / deepcopy / pickle round trip, put "
+            "in train() / eval() mode, optionally called again afterwards on another shape ('life:*' keys). Family "
+            "'threshold' of the big stream: 8 (thorough 16) batches per run with R, H in 63..130 (around 2^6, 2^7), "
+            "N 3..7 mixing empty / short / full-length sequences, cost kind x entry x mode x layout rotating. "
+            "A column is non-trivial when both cut sequences are "
             "non-empty, the distance is > 0 and not all tokens are equal; distinct by "
             "(ref', hyp', costs, option cell) — counted per column in `distinct_nontrivial_pairs`, "
             "per batch in `distinct_nontrivial`.")
@@ -436,6 +575,11 @@ class C01(PropertyCheck):
         "a module carries the options it was constructed with (attributes, extra_repr), a second call of the same "
         "module gives the same tensor, and the library warnings are exactly the documented ones (none with "
         "warn=False)",
+        "a module object is judged by its CURRENT public attributes: whatever it was constructed with, whatever it "
+        "was called on before, and however it reached the call (the object, a copy, a pickle round trip; train or "
+        "eval mode), the observed call must give what a freshly constructed module with the current values gives "
+        "(= the model's numbers); calls before / after the observed one are compared bit-for-bit with the functional "
+        "given the attribute values of that moment; the second call goes through `.forward` directly",
         "large batches (kind 'big'): every pair is checked model-free only (the batch with its columns reversed and "
         "rotated, and the batch cut into two unequal parts, must give bit-identical numbers pair by pair); at most 12 "
         "sampled pairs (last, first, middle, around the largest power of two below N, random) are re-run alone and "
@@ -631,7 +775,59 @@ class C01(PropertyCheck):
             c["alias"] = True
         if rng.random() < 0.05:
             c["default_dtype"] = "float64"
+        if c["entry"] == "module" and rng.random() < 0.55:
+            c["life"] = self.make_life(rng, c)
         return c
+
+    def make_life(self, rng, case):
+        """The part of a module object's life before the observed call: which public attributes are constructed
+        with ANOTHER value and reassigned to the case's option cell afterwards (one alone / the three costs - the
+        documented 'sweep over cost settings with one metric object' - / all of them / a random subset), whether
+        the object is called in between (on the same batch, or on one of another shape), and whether it is
+        called once more afterwards on a batch of another shape. Judged as a fresh module with the final values:
+        neither the model nor the expected numbers see any of this."""
+        attrs = ORDER[case["mode"]]
+        costs = ("ins_cost", "del_cost", "sub_cost")
+        u = rng.random()
+        if u < 0.3:
+            names = [rng.choice(attrs)]
+        elif u < 0.5:
+            names = list(costs)
+        elif u < 0.65:
+            names = list(attrs)
+        else:
+            names = [k for k in attrs if rng.random() < 0.4] or [rng.choice(attrs)]
+        dts = case.get("tok_dtype") or ["int64", "int64"]
+        lo = max(DTYPE_RANGE[d][0] for d in dts)
+        hi = min(DTYPE_RANGE[d][1] for d in dts)
+        toks = [t for t in garbage_tokens(case) if lo <= t <= hi] or [0]
+        uniform = rng.random() < 0.4  # the construction-time costs are one number (the shortcut branch)
+        cu = rng.choice(COSTS)
+        init = {}
+        for k in names:
+            if k.endswith("_cost"):
+                final = Fraction(case[k[:3]])
+                pool = [c for c in COSTS if Fraction(c) != final]
+                init[k] = cu if (uniform and Fraction(cu) != final) else rng.choice(pool)
+            elif k == "eos":
+                final = case["eos"]
+                cands = [t for t in toks if t != final] + ([final + 1] if final is not None and final + 1 <= hi else [])
+                if final is None:
+                    init[k] = rng.choice(cands or [0])
+                else:
+                    init[k] = None if (rng.random() < 0.4 or not cands) else rng.choice(cands)
+            elif k == "padding":
+                init[k] = rng.choice([x for x in PADDINGS + toks[:2] if x != case["padding"]])
+            else:
+                init[k] = not (case.get("warn", False) if k == "warn" else case[k])
+        big = case["kind"] == "big"
+        life = {"init": init, "warm": rng.choice(["none", "other"] if big else ["none", "same", "other"]),
+                "post": rng.random() < 0.3}
+        if rng.random() < 0.3:
+            life["hand"] = rng.choice(["deepcopy", "copy", "pickle"])
+        if rng.random() < 0.3:
+            life["train"] = rng.random() < 0.5
+        return life
 
     def alias_case(self, rng, maxlen):
         """ref and hyp are the same batch (distance 0 everywhere): handed over as ONE tensor object."""
@@ -641,21 +837,24 @@ class C01(PropertyCheck):
         return c
 
     # -- large problems (size-triggered code paths)
-    def _big(self, rng, rot, family, N, R, H, n_sample=None):
+    def _big(self, rng, rot, family, N, R, H, n_sample=None, eos_kind=None, costs=None, entry=None, mix=False,
+             cell=None):
         """One large batch; the option cell is random except that entry point (scalar / per-prefix) x layout
         rotate, so that every family sees all four. Nothing but the sizes and a generator seed is stored."""
         A = rng.choice([2, 3, 4, 4, 6, 12])
-        kind = rng.choice(["in", "in", "in", "unset", "absent"])
+        kind = eos_kind or rng.choice(["in", "in", "in", "unset", "absent"])
         eos = {"in": A, "unset": None, "absent": A + 1}[kind]
         rot[0] += 1
-        mode, bf = [("scalar", False), ("prefix", True), ("scalar", True), ("prefix", False)][rot[0] % 4]
+        mode, bf = cell or [("scalar", False), ("prefix", True), ("scalar", True), ("prefix", False)][rot[0] % 4]
         c = {"kind": "big", "family": family, "N": N, "R": R, "H": H,
              "gen": {"seed": rng.randrange(2 ** 31), "alphabet": A, "noise": rng.choice([0.0, 0.1, 0.3])},
-             "mode": mode, "entry": rng.choice(["functional", "module"]), "eos": eos,
+             "mode": mode, "entry": entry or rng.choice(["functional", "module"]), "eos": eos,
              "include_eos": rng.random() < 0.5, "norm": rng.random() < 0.4, "batch_first": bf,
              "exclude_last": mode == "prefix" and rng.random() < 0.4 and H >= 2,  # (H = 1: the loop would not run)
              "padding": rng.choice(PADDINGS)}
-        c["ins"], c["del"], c["sub"] = self._costs(rng)
+        c["ins"], c["del"], c["sub"] = costs or self._costs(rng)
+        if mix:
+            c["gen"]["mix"] = True
         if n_sample is not None:
             c["n_sample"] = n_sample
         # presentation (never changes a number); the 4x storage of the strided form only for moderate sizes
@@ -665,7 +864,66 @@ class C01(PropertyCheck):
         lays = ["contig", "contig", "tview"] + (["strided"] if N * (R + H + 1) <= 2 ** 21 else [])
         c["layout"] = [rng.choice(lays), rng.choice(lays)]
         c["tok_dtype"] = rng.choice([["int64", "int64"], ["int64", "int64"], ["int32", "int32"], ["int16", "int64"]])
+        if c["entry"] == "module" and (rng.random() < 0.55 or family == "threshold"):
+            c["life"] = self.make_life(rng, c)
         return c
+
+    def _cost_kind(self, rng, kind):
+        """A cost triple of a given kind: 0 = all three different and none equal to 1 (nothing a unit-cost
+        formula could get right), 1 = uniform but not 1 (the shortcut branch with a factor), 2 = any non-uniform
+        triple of the pool, 3 = unit costs."""
+        if kind == 0:
+            t = rng.sample([c for c in COSTS if c != "1"], 3)
+        elif kind == 1:
+            c = rng.choice([c for c in COSTS if c != "1"])
+            t = [c, c, c]
+        elif kind == 2:
+            while True:
+                t = [rng.choice(COSTS) for _ in range(3)]
+                if len(set(t)) > 1:
+                    break
+        else:
+            return ["1", "1", "1"]
+        if rng.random() < 0.12:
+            k = rng.choice(COST_SCALES)
+            t = [fs(Fraction(x) * Fraction(2) ** k) for x in t]
+        return t
+
+    def threshold_cases(self, rng, rot, tier):
+        """Sequence lengths around 2^6 and 2^7 (R and H 63..130: where an implementation would switch algorithm,
+        chunk, or change an index type) in EVERY option class, not just where the random stream happens to put
+        them. Cost kind (see `_cost_kind`) x reference-length class (just above 2^6: 65, 66 / between: 67..128 /
+        just above 2^7: 129, 130) are fully crossed; entry point (functional / module, the latter always with a
+        life cycle), scalar / per-prefix x layout, the eos kind and the hypothesis length (long or short) are each
+        balanced over the batches and associated with them at random; two more batches put a long hypothesis
+        against short references. Small batches that mix empty, short and full-length references and hypotheses; all pairs go
+        to the Lean oracle (N <= 7)."""
+        def length(cls):
+            if cls == 0:
+                return rng.choice([65, 66])
+            if cls == 2:
+                return rng.choice([129, 130])
+            return rng.choice([127, 128, 63, 64]) if rng.random() < 0.4 else rng.randint(67, 126)
+        def balanced(values, n):
+            out = (values * (n // len(values) + 1))[:n]
+            rng.shuffle(out)
+            return out
+        off = rng.randrange(4)
+        for rd in range(1 if tier == "quick" else 2):
+            n = 14
+            # every other option: balanced over the 14 batches, associated at random (another way each run)
+            cells = balanced([("scalar", False), ("prefix", True), ("scalar", True), ("prefix", False)], n)
+            entries = balanced(["module", "functional"], n)
+            long_h = balanced([True, False], n)
+            eos_kinds = balanced(["in", "in", "in", None], n)
+            for i in range(n):
+                kind, cls = (i // 3 + off) % 4, i % 3
+                R = length(cls)
+                H = length(rng.randrange(3)) if long_h[i] else rng.randint(2, 9)
+                if i >= 12:
+                    kind, R, H = rng.randrange(3), rng.randint(2, 9), length(rng.randrange(3))
+                yield self._big(rng, rot, "threshold", rng.randint(3, 7), R, H, eos_kind=eos_kinds[i],
+                                costs=self._cost_kind(rng, kind), entry=entries[i], mix=True, cell=cells[i])
 
     def big_cases(self, rng, tier):
         """Problems whose size measures cross the powers of two up to 2^22 (quick) / 2^23 (thorough), one measure
@@ -675,6 +933,7 @@ class C01(PropertyCheck):
         rot = [rng.randrange(4)]
         top = 22 if tier == "quick" else 23
         rounds = 1 if tier == "quick" else 4
+        yield from self.threshold_cases(rng, rot, tier)
         for rd in range(rounds):
             # (R+1)^2 * N: the (R+1, R+1, N) temporary of the deletion step
             for k in [17, 18, 19, 20, 20, 21, 21, 22] + ([23] if top >= 23 else []):
@@ -909,16 +1168,23 @@ class C01(PropertyCheck):
             return {"op": "c01.shapes", "case": {"ref_shape": sh[0], "hyp_shape": sh[1],
                                                  "batch_first": case["what"] == "batch_mismatch_bf",
                                                  "mode": case["mode"]}}
+        # module entry: the driver replays the object's history (construction values, reassignments) on the
+        # module model and calls ITS forward
+        mod = {"entry": case["entry"], "warn": bool(case.get("warn", False))}
+        if case["entry"] == "module" and case.get("life"):
+            mod["life"] = {"init": {k: v for k, v in case["life"]["init"].items() if k in ORDER[case["mode"]]}}
         if case["kind"] == "big":
             ref, hyp = expand_big(case)
             cols = [{"ref": ref[i].tolist(), "hyp": hyp[i].tolist()} for i in sample_indices(case)]
             return {"op": "c01.sample", "case": {
+                **mod,
                 "cols": cols, "with_model": big_with_model(case),
                 "eos": case["eos"], "include_eos": case["include_eos"], "norm": case["norm"],
                 "exclude_last": case["exclude_last"], "padding": case["padding"],
                 "ins": case["ins"], "del": case["del"], "sub": case["sub"], "mode": case["mode"],
                 "R": case["R"], "H": case["H"], "batch_first": case["batch_first"]}}
         return {"op": "c01.batch", "case": {
+            **mod,
             "cols": [{"ref": r, "hyp": h} for r, h in zip(case["ref"], case["hyp"])],
             "eos": case["eos"], "include_eos": case["include_eos"], "norm": case["norm"],
             "exclude_last": case["exclude_last"], "padding": case["padding"],
@@ -960,6 +1226,8 @@ class C01(PropertyCheck):
                     out.append(f"col {n}: impl={iv} model={mv} (float32: {want})")
         if len(impl["vals"]) != len(model["cols"]):
             out.append("number of columns differs")
+        if model.get("module") != (case["entry"] == "module"):
+            out.append(f"driver went through the module model: {model.get('module')}, entry {case['entry']}")
         # the tensor-level model (whole batch, the layout of the call) against the tensor as returned
         tm = model.get("tensor")
         if tm is not None:
@@ -1084,8 +1352,11 @@ class C01(PropertyCheck):
                           "given)", "C01.inputs_written"))
         if impl.get("second_call_same") is False:
             fails.append(("a second call of the same module object on the same batch gave another result", "C01.module_state"))
+        for b in impl.get("life_calls") or []:
+            fails.append((f"a re-used module object does not compute what its current attributes say: {b}",
+                          "C01.module_state"))
         for b in impl.get("module_attrs") or []:
-            fails.append((f"module does not carry the option it was constructed with: {b}", "C01.module_attrs"))
+            fails.append((f"module does not carry the option it was given: {b}", "C01.module_attrs"))
         if "warned" in impl and impl["warned"] != self._expected_warnings(case, impl):
             fails.append((f"warn={case.get('warn', False)}: library warnings {impl['warned']}, documented for this "
                           f"batch: {self._expected_warnings(case, impl)}", "C01.warnings"))
@@ -1166,6 +1437,7 @@ class C01(PropertyCheck):
             t.append("alias_same_tensor")
         if case.get("default_dtype"):
             t.append("default_dtype=" + case["default_dtype"])
+        t += self._life_tags(case, "")
         if case["mode"] == "prefix":
             pd = case["padding"]
             t.append("padding=" + ("-100" if pd == -100 else "eos" if pd == eos else "a_token" if pd in toks
@@ -1199,6 +1471,27 @@ class C01(PropertyCheck):
                 self._pairs.add((tuple(rc), tuple(hc), cell))
         return t
 
+    def _life_tags(self, case, pre):
+        life = case.get("life") if case["entry"] == "module" else None
+        if not life:
+            return [pre + "module_life=fresh"] if case["entry"] == "module" else []
+        names = list(life["init"])
+        t = [pre + "module_life=reassigned", pre + "life:warm_call=" + life.get("warm", "none"),
+             pre + f"life:post_call={bool(life.get('post'))}",
+             pre + "life:n_reassigned=" + ("1" if len(names) == 1 else "all" if len(names) == len(ORDER[case["mode"]])
+                                             else "several")]
+        t += [pre + "life:reassigned=" + k for k in names]
+        t.append(pre + "life:handed_as=" + life.get("hand", "same"))
+        t.append(pre + "life:mode=" + {None: "untouched", True: "train()", False: "eval()"}[life.get("train")])
+        cs = [k for k in names if k.endswith("_cost")]
+        if cs:
+            fin = {k: Fraction(case[k[:3]]) for k in ("ins_cost", "del_cost", "sub_cost")}
+            ini = {k: Fraction(life["init"][k]) if k in life["init"] else fin[k] for k in fin}
+            uni = lambda d: len(set(d.values())) == 1
+            t.append(pre + "life:costs=" + ("uniform" if uni(ini) else "nonuniform") + "->"
+                     + ("uniform" if uni(fin) else "nonuniform"))
+        return t
+
     def _big_tags(self, case, impl):
         N, R, H = case["N"], case["R"], case["H"]
         lg = lambda x: max(int(x), 1).bit_length() - 1
@@ -1216,6 +1509,7 @@ class C01(PropertyCheck):
             t.append(f"big:H>=2^{lg(H):02d}")
         t.append("big:lean_per_column_model=" + ("run" if big_with_model(case) else "oracle_only"))
         t.append("big:layout=" + "/".join(case.get("layout") or ["contig", "contig"]))
+        t += self._life_tags(case, "big:")
         if impl and impl.get("warned"):
             t += ["warned:" + k for k in impl["warned"]]
         return t
@@ -1254,6 +1548,7 @@ class C01(PropertyCheck):
                 c = dict(case)
                 c[k] = False
                 yield c
+        yield from self._shrink_life(case)
         if case["entry"] == "module":
             yield dict(case, entry="functional")
         if case["mode"] == "prefix" and not case["exclude_last"]:
@@ -1290,6 +1585,25 @@ class C01(PropertyCheck):
                         c[key] = cols
                         yield c
 
+    def _shrink_life(self, case):
+        """A shorter life of the module object: none at all, no call before / after, one reassigned attribute."""
+        life = case.get("life")
+        if not life or case["entry"] != "module":
+            return
+        yield {k: v for k, v in case.items() if k != "life"}
+        if life.get("warm", "none") != "none":
+            yield dict(case, life=dict(life, warm="none"))
+        if life.get("post"):
+            yield dict(case, life=dict(life, post=False))
+        for k in ("hand", "train"):
+            if k in life:
+                yield dict(case, life={q: v for q, v in life.items() if q != k})
+        if len(life["init"]) > 1:
+            for k in life["init"]:
+                yield dict(case, life=dict(life, init={k: life["init"][k]}))
+            for k in life["init"]:
+                yield dict(case, life=dict(life, init={q: v for q, v in life["init"].items() if q != k}))
+
     def _shrink_big(self, case):
         """Smaller sizes (the batch is regenerated from the seed), plainer options. A size-triggered failure
         stops shrinking at its trigger, which is what the replay should show."""
@@ -1306,6 +1620,7 @@ class C01(PropertyCheck):
         for k in ("batch_first", "norm", "include_eos", "exclude_last", "warn"):
             if case.get(k):
                 yield dict(case, **{k: False})
+        yield from self._shrink_life(case)
         if case["entry"] == "module":
             yield dict(case, entry="functional")
         if case["mode"] == "prefix" and not case["exclude_last"]:
